@@ -103,8 +103,44 @@ def replay_sort(call):
         return dict(fails=True, detail='%s raised %r on %r' % (kind, e, x))
 
 
+def replay_table(call):
+    """dictable.sort on a one-key-column table built from the model's key list (the keys of the rows are the values x0, x1, ...)"""
+    from pyg_base import dictable
+    from pyg_base._sort import cmp
+    b = Builder(call)
+    try:
+        n = int(call.get('N', call.get('x_len', 0)))
+        if n > 3:
+            raise Unbuildable('%d rows' % n)
+        keys = [b.get('x%d' % k, nested=False) for k in range(n)]
+    except Unbuildable as e:
+        return dict(fails=None, detail='model not concretisable: %s' % e)
+    try:
+        d = dictable(k=keys, row=list(range(n)))
+        r = d.sort('k')
+        rows = list(r.row) if n else []
+        probs = []
+        if sorted(rows) != list(range(n)) or len(r) != n:
+            probs.append('rows %r are not a permutation of the %d rows' % (rows, n))
+        else:
+            if [id(v) for v in r.k] != [id(keys[i]) for i in rows]:
+                probs.append('columns are not permuted alike')
+            for a in range(n - 1):
+                c = cmp((keys[rows[a]],), (keys[rows[a + 1]],))
+                if c > 0 or (c == 0 and rows[a] > rows[a + 1]):
+                    probs.append('rows %d,%d out of order / tie not in original order' % (rows[a], rows[a + 1]))
+            again = list(r.sort('k').row)
+            if again != rows:
+                probs.append('not idempotent: %r then %r' % (rows, again))
+        return dict(fails=bool(probs), detail='dictable(k=%r).sort("k") gives rows %r: %s' % (keys, rows, '; '.join(probs) or 'stable, ordered by cmp'))
+    except Exception as e:      # noqa
+        return dict(fails=True, detail='dictable(k=%r).sort("k") raised %r' % (keys, e))
+
+
 def replay(call):
     from pyg_base._sort import cmp, cmparr
+    if call.get('kind', '') == 'dictable.sort':
+        return replay_table(call)
     if call.get('kind', '') in ('sort', 'has_nan') or call.get('kind', '').startswith('sort.lemma'):
         return replay_sort(call)
     b = Builder(call)
